@@ -33,7 +33,7 @@ func init() {
 		Assumptions: []string{
 			"a function call is active from application (after its arguments were evaluated); special operators are active while their sub-forms run; a macro only during expansion",
 			"site classes judged: unbound symbol -> the symbol; error / argument rejection by a function or operator -> the call expression; template-written forms keep their position; forms a macro builds without position take the macro call site. Other error classes (head not a function, malformed special forms, errors under thread-first/last whose calls are built without position) must lie inside the source and inside the failing top-level form, nothing more",
-			"for calls a builtin makes on the program's behalf (map, foldl, select, funcall, apply, handlers) only the callee's order and name are compared, not its call-site position",
+			"a callee invoked by a builtin function on the program's behalf (callbacks of map, foldl, select, funcall, apply, stable-sort, ...) is called from that builtin's call expression, with and without elimination; for handlers and for all?/any? (which evaluate a call expression they build themselves, without position) only the callee's order and name are compared",
 		},
 		Cases:       func(tier string) int { return pick(tier, 16000, 500000) },
 		Run:         c18Run,
@@ -104,6 +104,11 @@ func c18ChainString(c []c18Frame) string {
 
 var c18BehalfCallers = map[string]bool{"map": true, "foldl": true, "foldr": true, "select": true, "reject": true, "funcall": true, "apply": true, "unpack": true,
 	"all?": true, "any?": true, "handler-bind": true, "stable-sort": true, "insert-sorted": true, "search-sorted": true, "zip": true}
+
+// builtins that call back by evaluating a call expression they build themselves (it has
+// no position, so the callee's frame has none either) and handler invocations: the
+// callee's call site is not judged there
+var c18UnpositionedCallbacks = map[string]bool{"all?": true, "any?": true, "handler-bind": true}
 
 func c18Program(w *fw.W, idx int) ([]*sx.N, string, map[string]bool) {
 	r := w.RNG(idx, "prog")
@@ -290,6 +295,18 @@ func c18Run(w *fw.W, idx int) {
 				return
 			}
 		}
+		// a callee invoked by a builtin function on the program's behalf (a callback of
+		// map, foldl, funcall, ...) is called from that builtin's call expression
+		if ci := len(model) - 2 - i; behalf && !underThread && ci >= 0 {
+			if cf := model[ci]; cf.Kind == refint.FnFunction && cf.Site != nil && c18BehalfCallers[cf.Name] && !c18UnpositionedCallbacks[cf.Name] {
+				want := fmt.Sprintf("%d:%d", cf.Site.Line, cf.Site.Col)
+				if rf.loc != want {
+					w.Violation("stack-trace-callback-site:"+merr.Class, fmt.Sprintf("frame %d (%s, called back by %s) has call site %s, the %s expression is written at %s", i, rf.name, cf.Name, rf.loc, cf.Name, want), detail())
+					return
+				}
+				w.Count("callback_sites_compared", 1)
+			}
+		}
 	}
 	// ---- 3. elimination on: only elided frames may be missing --------------------------
 	ron := c18RealChain(von)
@@ -300,6 +317,11 @@ func c18Run(w *fw.W, idx int) {
 		// that frame was reused by a tail call: such frames match by name
 		behalf := model[len(model)-1-i].Site == nil
 		if j < len(ron) && ron[j].name == f.name && (ron[j].loc == f.loc || behalf) {
+			if ron[j].loc != f.loc && !underThread {
+				w.Violation("stack-trace-callback-site-with-elimination:"+merr.Class,
+					fmt.Sprintf("with elimination on the called-back frame %s has call site %s, without %s", f.name, ron[j].loc, f.loc), detail())
+				return
+			}
 			j++
 			continue
 		}
@@ -368,6 +390,28 @@ func c18ModelChain(e *refint.Err) string {
 // argument), optionally under tail-position wrappers.
 func c18TailLoopProgram(r *fw.RNG) []*sx.N {
 	n := r.Range(0, 5)
+	if r.Chance(1, 3) {
+		// a callback that loops by tail calls on an early element and fails on a later
+		// one: every callback frame is called from the builtin's call expression
+		cb := sx.Call("defun", sx.Y("cb"), sx.L(sx.Y("n")),
+			sx.Call("if", sx.Call("=", sx.Y("n"), sx.I(0)), fw.Pick(r, []*sx.N{sx.Call("error", sx.QY("boom"), sx.S("x")), sx.Call("car", sx.Y("n")), sx.Call("cb")}),
+				sx.Call("if", sx.Call("<", sx.Y("n"), sx.I(-3)), sx.I(0), sx.Call("cb", sx.Call("-", sx.Y("n"), sx.I(1))))))
+		elems := sx.Q(sx.L(sx.I(int64(-1-r.Intn(3))), sx.I(int64(r.Intn(4)))))
+		var use *sx.N
+		switch r.Intn(5) {
+		case 0:
+			use = sx.Call("map", sx.QY("list"), sx.Y("cb"), elems)
+		case 1:
+			use = sx.Call("foldl", sx.Call("lambda", sx.L(sx.Y("a"), sx.Y("x")), sx.Call("cb", sx.Y("x"))), sx.I(0), elems)
+		case 2:
+			use = sx.Call("select", sx.QY("list"), sx.Y("cb"), elems)
+		case 3:
+			use = sx.Call("list", sx.Call("funcall", sx.Y("cb"), sx.I(-1)), sx.Call("funcall", sx.Y("cb"), sx.I(int64(r.Intn(3)))))
+		default:
+			use = sx.Call("map", sx.QY("vector"), sx.Call("lambda", sx.L(sx.Y("x")), sx.Call("cb", sx.Y("x"))), elems)
+		}
+		return []*sx.N{cb, sx.Call("defun", sx.Y("run"), sx.L(), use, sx.I(1)), sx.Call("verif:probe", sx.QY("pre"), sx.I(1)), sx.Call("run")}
+	}
 	var bad *sx.N
 	switch r.Intn(4) {
 	case 0:
